@@ -15,6 +15,7 @@ RULE = ("consistent passes (recorded times = start + floor((n-n0)*period), heade
         "get_times() vs the Lean model (to 1 ms) and vs the recorded instants (the property's own oracle); plus decoding "
         "of random / extreme POD time words and KLM triples vs the model. A case = one pass or one decode; non-trivial = "
         "pass with >= 2 lines or any decode; distinct by (format, line numbers hash, start time)")
+RULE += (" In the thorough tier, and in the quick tier whenever the source differs from the validated baseline, a LONG-PASS stream is added (passes of 1300 .. 12000 lines, just beyond multiples of 256 .. 8192, with the property-relevant event placed at and after such multiples; DESIGN 10.4 round 13).")
 TRUSTED_EXTRA = ["float64 arithmetic of the code is modelled exactly (Rat); agreement is checked to 1 ms",
                  "datetime.now().year is read once by the harness and passed to the model"]
 
